@@ -331,6 +331,19 @@ func fixedPrograms() []*Prog {
 		p.Calls = callsOf(p)
 		out = append(out, p)
 	}
+	{ // self recursion with GROUPED result names `(r0, r1 int, r2 error)`: two result fields, three results
+		p := baseProg(false)
+		id := len(p.Funcs)
+		p.NObj += 3
+		o0, o1, o2 := p.NObj-2, p.NObj-1, p.NObj
+		tableFn(p, "RecG", pkgA, 0, []Res{{Ty: tInt, Name: "r0", Obj: o0}, {Ty: tInt, Name: "r1", Obj: o1}, {Ty: tErr, Name: "r2", Obj: o2}}, []*Stmt{
+			{K: "group", Head: "if", Blocks: [][]*Stmt{{ret(lit("0", Ty{K: "untyped"}), lit("1", Ty{K: "untyped"}), nilExpr())}}},
+			ret(tcall("RecG", id, []Ty{tInt, tInt, tErr}, val("n - 1", tInt), nilExpr(), nilExpr())),
+		})
+		p.Funcs[id].Grouped = true
+		p.Calls = callsOf(p)
+		out = append(out, p)
+	}
 	{ // a closure with more results than the callee: #21
 		p := baseProg(false)
 		w := tableFn(p, "Wrap2", pkgA, 1, []Res{{Ty: tErr}}, []*Stmt{ret(nilExpr())})
